@@ -35,6 +35,7 @@ package goja
 //@   ensures @linksFwd [links-forward]
 //@   ensures @linksBack [links-backward]
 //@   ensures m.size == old(m.size) && m.iterLast == old(m.iterLast) && m.iterFirst == old(m.iterFirst) || m.size == old(m.size)+1 && m.iterLast != nil && m.iterLast.iterPrev == old(m.iterLast) && same(m.iterLast.value, value) && m.iterLast.key != nil && (old(m.iterLast) == nil ==> m.iterFirst == m.iterLast) && (old(m.iterLast) != nil ==> m.iterFirst == old(m.iterFirst)) [updates-in-place-or-appends-at-tail]
+//@   ensures forall e *mapEntry :: e != nil && old(e.key) == nil && e.key == nil ==> e.iterPrev == old(e.iterPrev) && e.iterNext == old(e.iterNext) [tombstones-are-not-touched]
 
 //@ func (*orderedMap).remove
 //@   props C18
@@ -45,6 +46,12 @@ package goja
 //@   ensures @linksBack [links-backward]
 //@   ensures result ==> m.size == old(m.size)-1 [size]
 //@   ensures !result ==> m.size == old(m.size) && m.iterFirst == old(m.iterFirst) && m.iterLast == old(m.iterLast) [absent-is-noop]
+// A removed entry is a tombstone for the iterators parked on it: it keeps both links as they were when
+// it was removed (next() walks iterPrev back to the nearest live entry and continues from there), and
+// older tombstones are not touched.
+//@   ensures forall e *mapEntry :: e != nil && old(e.key) != nil && e.key == nil ==> e.iterPrev == old(e.iterPrev) && e.iterNext == old(e.iterNext) [the-removed-entry-keeps-its-links]
+//@   ensures forall e *mapEntry :: e != nil && old(e.key) == nil ==> e.key == nil && e.iterPrev == old(e.iterPrev) && e.iterNext == old(e.iterNext) [older-tombstones-are-not-touched]
+//@   ensures forall e *mapEntry :: e != nil && old(e.key) != nil && e.key == nil ==> result [only-a-successful-remove-makes-a-tombstone]
 
 //@ func (*orderedMapIter).next
 //@   props C18
